@@ -48,7 +48,12 @@ void cfg_key(const cfg_t *c, char *buf, size_t n)
 void cfg_use(const cfg_t *c)
 {
     /* the size models follow the configuration being worked on */
-    if (c->be == EC_BACKEND_ISA_L_RS_VAND || c->be == EC_BACKEND_ISA_L_RS_CAUCHY) ref_isal_word_bits = (c->w == 16 || c->w == 32) ? c->w : 0;
+    /* relaxed atomics, written only when the value changes: monitor state shared by the worker threads of the
+     * concurrency driver (which all use w = 0) must not look like a race of the code under test */
+    if (c->be == EC_BACKEND_ISA_L_RS_VAND || c->be == EC_BACKEND_ISA_L_RS_CAUCHY) {
+        int v = (c->w == 16 || c->w == 32) ? c->w : 0;
+        if (__atomic_load_n(&ref_isal_word_bits, __ATOMIC_RELAXED) != v) __atomic_store_n(&ref_isal_word_bits, v, __ATOMIC_RELAXED);
+    }
 }
 
 int lec_create(const cfg_t *c)
